@@ -98,6 +98,8 @@ def functor_invocations(fn):
             tgt = n['args'][0]
         elif n['k'] == 'CallExpr' and 'cn' not in n and n.get('ch'):
             tgt = n['ch'][0]  # call through a function pointer / reference
+            if fn.nodes[fn.strip(tgt)]['k'] == 'CXXPseudoDestructorExpr':
+                continue  # storage.~Storage() of a function-pointer functor: a no-op, not an invocation
         else:
             continue
         hit = False
@@ -196,7 +198,7 @@ def check_entries(ctx, fb, re_):
 
 
 def run(ctx):
-    fbs = ctx.facts(['K17', 'K20'], kinds=('probe', 'lib'), only=r'p_async\.cpp$|p_coro\.cpp$|src/')
+    fbs = ctx.facts(['K17', 'K20'], kinds=('probe', 'lib'), only=r'p_async\.cpp$|p_coro\.cpp$|src/', tests=r'/test/')
     re_ = ctx.rule('R-DISPATCH.entry', 'Call()/Drop() of every Core reach completion only through CallImpl; Drop '
                    'dispatches Result{StopTag}', minimum=200)
     ra = ctx.rule('R-ACCESSOR', 'every Result accessor call in Core sees exactly the matching state', minimum=100)
